@@ -9,7 +9,7 @@ package bigbuff
 //@   bvfile chancaster.go chanpubsub.go
 
 //@ func DefaultCleaner
-//@   props C03 C04
+//@   props C03 C04 C01 C02
 //@   nopanic always : true
 //@   ensures zero : some(j, 0, len(offsets), offsets[j] == 0) ==> ret == 0
 //@   ensures inactive : all(j, 0, len(offsets), offsets[j] < 0) ==> ret == 0
@@ -24,7 +24,7 @@ package bigbuff
 //@   loop 0 invariant att : lowest == size || some(j, 0, rangeindex+1, offsets[j] > 0 && lowest == offsets[j])
 
 //@ func FixedBufferCleaner$1
-//@   props C03 C04
+//@   props C03 C04 C01 C02
 //@   modular
 //@   # the default shift is computed first, exactly once, from the same arguments
 //@   at-call DefaultCleaner#0 same : arg0 == size && arg1 == offsets
@@ -55,20 +55,20 @@ package bigbuff
 //@   axiom unpacked_nonnil : forall(x, any, x != nil ==> unpacked(x) != nil)
 
 //@ func FatalError
-//@   props C18
+//@   props C18 C01 C02 C03 C04
 //@   panics nilerr : err == nil
 //@   nopanic nonnil : err != nil
 //@   ensures wraps : is(ret, fatalError) && field(ret, fatalError, err) == err && ret != nil
 
 //@ func unpackFatalError
-//@   props C18
+//@   props C18 C01 C02 C03 C04
 //@   nopanic always : true
 //@   ensures notfatal : !is(ret, fatalError)
 //@   ensures def : ret == unpacked(err)
 //@   ensures ident : !is(err, fatalError) ==> ret == err
 
 //@ func isFatalError
-//@   props C18
+//@   props C18 C01 C02 C03 C04
 //@   ensures def : ret == is(err, fatalError)
 
 //@ func var:calcExponentialRetry
@@ -229,7 +229,7 @@ package bigbuff
 //@   loop 0 invariant keep : all(j, pending, len(c.buffer), c.buffer[j] == old(c.buffer[j]))
 
 //@ func (*Channel).Rollback
-//@   props C13
+//@   props C13 C12
 //@   # only a Channel made by NewChannel is usable: everything else panics up front
 //@   panics notmade : c == nil || !c.valid
 //@   action mutex
@@ -238,7 +238,7 @@ package bigbuff
 //@   ensures ok : ret == nil ==> c.rollback == len(c.buffer) && cursor(c) == c.k && unchanged(c.buffer, c.k)
 
 //@ func (*Channel).Buffer
-//@   props C13
+//@   props C13 C12
 //@   # only a Channel made by NewChannel is usable: everything else panics up front
 //@   panics notmade : c == nil || !c.valid
 //@   action mutex
@@ -482,7 +482,7 @@ package bigbuff
 
 //@ func (*Buffer).ensure
 //@   maypanic
-//@   props C11
+//@   props C11 C01 C02 C03 C04 C05 C12
 //@   # The body applies a slice of closures under the lock; its functional postcondition is not verified
 //@   # (closure slices are outside the engine's reach) and is an assumed contract at call sites.
 //@   panics nilrecv : b == nil
@@ -492,7 +492,7 @@ package bigbuff
 //@ # only if it is still unset when the lock is held (the unlocked first check is only a hint: two first uses may race)
 //@ # and never replaces a value another goroutine installed in the meantime.
 //@ func (*Buffer).ensure$2
-//@   props C05 C11 C12
+//@   props C05 C11 C12 C01 C02 C03 C04
 //@   modular
 //@   holds W : b.mutex
 //@   init-once mutex : ctx
@@ -501,7 +501,7 @@ package bigbuff
 //@   ensures set : b.ctx != nil
 
 //@ func (*Buffer).ensure$3
-//@   props C05 C11 C12
+//@   props C05 C11 C12 C01 C02 C03 C04
 //@   modular
 //@   holds W : b.mutex
 //@   # the context is replaced by its cancellable child exactly once, together with the first cancel function
@@ -511,7 +511,7 @@ package bigbuff
 //@   ensures set : b.cancel != nil && b.ctx != nil
 
 //@ func (*Buffer).ensure$4
-//@   props C05 C11 C12
+//@   props C05 C11 C12 C01 C02 C03 C04
 //@   modular
 //@   holds W : b.mutex
 //@   init-once mutex : consumers
@@ -520,7 +520,7 @@ package bigbuff
 //@   ensures set : b.consumers != nil
 
 //@ func (*Buffer).ensure$5
-//@   props C05 C11 C12
+//@   props C05 C11 C12 C01 C02 C03 C04
 //@   modular
 //@   holds W : b.mutex
 //@   init-once mutex : done
@@ -529,7 +529,7 @@ package bigbuff
 //@   ensures set : b.done != nil
 
 //@ func (*Buffer).ensure$6
-//@   props C04 C05 C11 C12
+//@   props C04 C05 C11 C12 C01 C02 C03
 //@   modular
 //@   holds W : b.mutex
 //@   # the steps run in order within one critical section and the condition variable is created last: while the cleaner
@@ -541,7 +541,7 @@ package bigbuff
 //@   ensures default : old(b.cleaner) == nil ==> b.cleaner.Cleaner != nil
 
 //@ func (*Buffer).ensure$7
-//@   props C04 C05 C11 C12
+//@   props C04 C05 C11 C12 C01 C02 C03
 //@   modular
 //@   holds W : b.mutex
 //@   init-once mutex : cond
@@ -552,7 +552,7 @@ package bigbuff
 //@   ensures started : old(b.cond) == nil ==> spawned("(*Buffer).cleanup") == 1
 
 //@ func (*Buffer).get
-//@   props C01 C03 C05 C12
+//@   props C01 C03 C05 C12 C02 C04
 //@   requires recv : b != nil && b.ctx != nil
 //@   holds R : b.mutex
 //@   requires member : true
@@ -567,7 +567,7 @@ package bigbuff
 //@   ensures novalue : !ret1 ==> ret0 == nil
 
 //@ func (*Buffer).commit
-//@   props C01 C02 C03 C04
+//@   props C01 C02 C03 C04 C05 C12
 //@   action mutex
 //@   holds W : c.mutex
 //@   requires forward : offset >= 0 && b != nil && b.cond != nil
@@ -577,7 +577,7 @@ package bigbuff
 //@   ensures frame : unchanged(b.buffer, b.offset)
 
 //@ func (*Buffer).delete
-//@   props C01 C04 C12
+//@   props C01 C04 C12 C02 C03 C05
 //@   action mutex
 //@   holds W : c.mutex
 //@   requires inited : b != nil && b.cond != nil
@@ -586,7 +586,7 @@ package bigbuff
 //@   ensures frame : unchanged(b.buffer, b.offset)
 
 //@ func (*Buffer).Put
-//@   props C01 C03 C12 C04
+//@   props C01 C03 C12 C04 C02 C05
 //@   action mutex
 //@   assume-at-release history : all(j, 0, len(values), log(b, old(end(b)) + j) == values[j])
 //@   ensures closed [C12,C01] : ret == nil ==> lasterr(b.ctx) == nil
@@ -598,19 +598,19 @@ package bigbuff
 //@   ensures cons : forall(k, ref, *consumer, has(b.consumers, k) == old(has(b.consumers, k)) && b.consumers[k] == old(b.consumers[k]))
 
 //@ func (*Buffer).Slice
-//@   props C03 C01
+//@   props C03 C01 C02 C04 C05 C12
 //@   action mutex
 //@   ensures copy : len(ret) == len(b.buffer) && all(i, 0, len(ret), ret[i] == log(b, b.offset + i)) && (ret == nil) == (b.buffer == nil)
 //@   ensures frame : unchanged(b.buffer, b.offset)
 
 //@ func (*Buffer).Size
-//@   props C03
+//@   props C03 C01 C02 C04 C05 C12
 //@   action mutex
 //@   ensures size : ret == len(b.buffer)
 //@   ensures frame : unchanged(b.buffer, b.offset)
 
 //@ func (*Buffer).NewConsumer
-//@   props C01 C03 C12 C04
+//@   props C01 C03 C12 C04 C02 C05
 //@   action mutex
 //@   ensures closed [C12,C01] : ret1 == nil ==> lasterr(b.ctx) == nil
 //@   ensures err : ret1 != nil ==> ret0 == nil && unchanged(b.buffer, b.offset) && forall(k, ref, *consumer, has(b.consumers, k) == old(has(b.consumers, k)) && b.consumers[k] == old(b.consumers[k]))
@@ -621,7 +621,7 @@ package bigbuff
 //@   ensures others : ret1 == nil ==> forall(k, ref, *consumer, k != as(ret0, *consumer) ==> has(b.consumers, k) == old(has(b.consumers, k)) && b.consumers[k] == old(b.consumers[k]))
 
 //@ func (*Buffer).NewConsumer$1
-//@   props C12
+//@   props C12 C01 C02 C03 C04 C05
 //@   modular
 //@   maypanic
 //@   requires wired : c != nil && c.ctx != nil
@@ -631,7 +631,7 @@ package bigbuff
 
 //@ func (*Buffer).Diff
 //@   maypanic
-//@   props C02 C03
+//@   props C02 C03 C01 C04 C05 C12
 //@   action mutex
 //@   ensures foreign : !ret1 ==> ret0 == 0
 //@   # completeness: a registered consumer of this buffer always gets its difference
@@ -640,7 +640,7 @@ package bigbuff
 //@   ensures frame : unchanged(b.buffer, b.offset)
 
 //@ func (*Buffer).consumerOffsets
-//@   props C03 C04
+//@   props C03 C04 C01 C02 C05 C12
 //@   holds W : b.mutex
 //@   nopanic always : true
 //@   loop 0 invariant enum : 0 <= mapiter0 && mapiter0 <= len(b.consumers) && len(result) == mapiter0 && all(j, 0, mapiter0, result[j] == b.consumers[mapkey(0, j)] - b.offset)
@@ -649,7 +649,7 @@ package bigbuff
 //@   ensures only [C04] : b != nil && b.consumers != nil ==> all(j, 0, len(ret), !forall(k, ref, *consumer, !(has(b.consumers, k) && ret[j] == b.consumers[k] - b.offset)))
 
 //@ func (*Buffer).cleanupLogic
-//@   props C01 C03 C04
+//@   props C01 C03 C04 C02 C05 C12
 //@   holds W : b.mutex
 //@   requires inv : b != nil && inv(b.mutex) && b.cond != nil
 //@   loop 0 invariant nil : 0 <= x && x <= shift && shift <= len(b.buffer) && len(b.buffer) == old(len(b.buffer)) && b.offset == old(b.offset) && all(j, shift, len(b.buffer), b.buffer[j] == old(b.buffer[j])) && heldW(b.mutex)
@@ -671,7 +671,7 @@ package bigbuff
 //@   ensures applied [C04] : b.offset == old(b.offset) + ite(lastres(old(b.cleaner.Cleaner), 0) > old(len(b.buffer)), old(len(b.buffer)), ite(lastres(old(b.cleaner.Cleaner), 0) < 0, 0, lastres(old(b.cleaner.Cleaner), 0)))
 
 //@ func WaitCond
-//@   props C05 C12
+//@   props C05 C12 C01 C04
 //@   inline
 //@   holds-cond W : cond
 //@   ensures nilcond : cond == nil ==> ret != nil && calls(fn) == 0
@@ -688,7 +688,7 @@ package bigbuff
 //@   maypanic
 //@   # the watcher panics only when the cond has no Locker to take
 //@   at-panic #0 nolocker : cond.L == nil
-//@   props C05 C12
+//@   props C05 C12 C01 C04
 //@   modular
 //@   # the watcher waits for nothing but the cancellation of the context it was started for
 //@   cancellable byctx : ctxdone(ctx)
@@ -697,7 +697,7 @@ package bigbuff
 //@   at-call (*sync.Cond).Broadcast#0 aftercancel : cancelled(ctx)
 
 //@ func (*Buffer).getAsync
-//@   props C01 C02 C05 C12
+//@   props C01 C02 C05 C12 C03 C04
 //@   action mutex
 //@   holds W : c.mutex
 //@   requires known : b != nil && c != nil && b.cond != nil
@@ -710,7 +710,7 @@ package bigbuff
 
 //@ func (*Buffer).getAsync$1
 //@   maypanic
-//@   props C01 C05 C12
+//@   props C01 C05 C12 C02 C03 C04
 //@   modular
 //@   # the consumer mutex is lent by consumer.Get, which keeps it until it has received from out
 //@   holds R : c.mutex
@@ -725,7 +725,7 @@ package bigbuff
 //@   loop WaitCond>0 invariant looked : icalls("(*Buffer).get") == icalls("(*sync.Cond).Wait")
 
 //@ func (*Buffer).getAsync$1$1
-//@   props C01 C05
+//@   props C01 C05 C02 C03 C04 C12
 
 // ---------------------------------------------------------------------------------------------------
 // C16 — context combinators (context.go)
@@ -785,7 +785,7 @@ package bigbuff
 
 //@ func (*consumer).Get
 //@   requires recv : c != nil
-//@   props C01 C02 C05 C12
+//@   props C01 C02 C05 C12 C03
 //@   action mutex
 //@   at-call (producer).getAsync#0 args : arg2 == c && arg3 == c.offset && heldW(c.mutex) && len(arg4) == 1 && arg4[0] == c.ctx
 //@   # the wait is bounded by a child of the caller's context (Background only when the caller passed nil), which was live when checked
@@ -801,7 +801,7 @@ package bigbuff
 
 //@ func (*consumer).Commit
 //@   requires recv : c != nil
-//@   props C02 C01 C12
+//@   props C02 C01 C12 C03 C05
 //@   action mutex
 //@   ensures nothing : old(c.offset) == 0 ==> ret != nil
 //@   ensures failed : ret != nil ==> c.offset == old(c.offset)
@@ -809,7 +809,7 @@ package bigbuff
 
 //@ func (*consumer).Rollback
 //@   requires recv : c != nil
-//@   props C02
+//@   props C02 C01 C03 C05 C12
 //@   action mutex
 //@   ensures nothing : old(c.offset) == 0 ==> ret != nil
 //@   ensures failed : ret != nil ==> c.offset == old(c.offset)
@@ -819,26 +819,26 @@ package bigbuff
 //@ func (*consumer).Close
 //@   maypanic
 //@   requires recv : c != nil
-//@   props C12
+//@   props C12 C01 C02 C03 C05
 //@   ensures once : old(oncedone(c.close)) ==> err != nil
 //@   ensures first : !old(oncedone(c.close)) ==> err == nil && oncedone(c.close) && closed(c.done) && calls(c.cancel) >= 1
 
 //@ func (*consumer).Close$1
 //@   maypanic
-//@   props C12
+//@   props C12 C01 C02 C03 C05
 //@   loop 0 invariant mon : inv(c.mutex) && heldW(c.mutex) && calls(c.cancel) >= 1 && !closed(c.done) && oncedone(c.close)
 //@   at-call (producer).delete#0 settled : !panicking() ==> heldW(c.mutex) && c.offset == 0 && arg1 == c
 //@   at-call builtin.close#0 last : !panicking() ==> heldW(c.mutex) && c.offset == 0 && calls(c.cancel) >= 1 && arg0 == c.done
 
 //@ func (*Buffer).Close
 //@   maypanic
-//@   props C12
+//@   props C12 C01 C02 C03 C04 C05
 //@   ensures once : old(oncedone(b.close)) ==> err != nil
 //@   ensures first : !old(oncedone(b.close)) ==> err == nil && oncedone(b.close)
 
 //@ func (*Buffer).Close$1
 //@   maypanic
-//@   props C12
+//@   props C12 C01 C02 C03 C04 C05
 //@   loop 0 invariant mon : inv(b.mutex) && heldW(b.mutex) && calls(b.cancel) >= 1 && oncedone(b.close) && !closed(b.done)
 //@   at-call builtin.close#0 drained : !panicking() ==> heldW(b.mutex) && len(b.consumers) == 0 && calls(b.cancel) >= 1 && arg0 == b.done
 
@@ -851,7 +851,7 @@ package bigbuff
 //@   maypanic
 
 //@ func Range
-//@   props C02
+//@   props C02 C01 C03 C04
 //@   ensures nilconsumer : consumer == nil ==> err != nil
 //@   ensures nilfn : fn == nil ==> err != nil
 //@   # the index handed to fn counts the iterations, from 0
@@ -863,7 +863,7 @@ package bigbuff
 
 //@ func Range$1
 //@   maypanic
-//@   props C02
+//@   props C02 C01 C03 C04
 //@   modular
 //@   explore-panics
 //@   requires wired : consumer != nil && fn != nil
@@ -874,7 +874,7 @@ package bigbuff
 //@   ensures-panic rolledback_p : icalls("(Consumer).Rollback") >= 1
 
 //@ func (*Buffer).Range
-//@   props C02
+//@   props C02 C01 C03 C04 C05 C12
 //@   maypanic
 //@   ensures foreign : !is(c, *consumer) ==> ret != nil
 //@   ensures nilfn : fn == nil ==> ret != nil
@@ -887,7 +887,7 @@ package bigbuff
 //@   at-call Range#0 forward : arg0 == ctx && arg1 == c
 
 //@ func (*Buffer).Range$1
-//@   props C02
+//@   props C02 C01 C03 C04 C05 C12
 //@   modular
 //@   requires wired : fn != nil
 //@   ensures onlyiffn : ret ==> lastres(fn, 0)
@@ -898,14 +898,14 @@ package bigbuff
 //@   at-call (*Buffer).Diff#0 afterfn : calls(fn) == 1 && lastres(fn, 0)
 
 //@ func (*Channel).pending
-//@   props C13
+//@   props C13 C12
 //@   requires recv : c != nil
 //@   inline
 //@   holds W : c.mutex
 
 //@ func (*Buffer).cleanup
 //@   maypanic
-//@   props C04 C12 C01
+//@   props C04 C12 C01 C02 C03 C05
 //@   requires recv : b != nil && b.cond != nil
 //@   # whatever ends the cleanup goroutine (context cancelled, or a panicking cleaner), the buffer is closed
 //@   ensures closes : icalls("(*Buffer).Close") == 1
@@ -917,7 +917,7 @@ package bigbuff
 //@ # The cooldown state machine: `timer` (non-nil while cooling down) and `broadcast` (a run was skipped while
 //@ # cooling down) are shared between the cleanup goroutine and the timer goroutines, under the local `mutex`.
 //@ func (*Buffer).cleanup$1
-//@   props C04
+//@   props C04 C01 C02 C03 C05 C12
 //@   modular
 //@   holds W : b.mutex
 //@   guard-local mutex : timer broadcast
@@ -935,7 +935,7 @@ package bigbuff
 
 //@ # the timer goroutine: waits for the timer, then (deferred) re-enables the cycle
 //@ func (*Buffer).cleanup$1$1
-//@   props C04
+//@   props C04 C01 C02 C03 C05 C12
 //@   modular
 //@   requires wired : mutex != nil && b != nil && timer != nil && b.cond != nil
 //@   # timer is read here without the local mutex: it was written before this goroutine was started and is next
@@ -944,7 +944,7 @@ package bigbuff
 //@   ensures fires [C04] : icalls("(*Buffer).cleanup$1$1$1") == 1
 
 //@ func (*Buffer).cleanup$1$1$1
-//@   props C04
+//@   props C04 C01 C02 C03 C05 C12
 //@   modular
 //@   guard-local mutex : timer broadcast
 //@   requires wired : mutex != nil && b != nil && b.cond != nil
@@ -979,13 +979,13 @@ package bigbuff
 //@   ensures set : c.wait == value && c.key == old(c.key) && c.work == old(c.work) && c.start == old(c.start)
 
 //@ func ExclusiveStart$1
-//@   props C10
+//@   props C10 C09
 //@   modular
 //@   requires cfg : c != nil
 //@   ensures set : c.start == value && c.key == old(c.key) && c.work == old(c.work) && c.wait == old(c.wait)
 
 //@ func ExclusiveValue$1
-//@   props C10
+//@   props C10 C09
 //@   modular
 //@   maypanic
 //@   requires wired : value != nil && resolve != nil && value != resolve
@@ -1000,14 +1000,14 @@ package bigbuff
 //@   ensures appended : len(c.wrappers) == old(len(c.wrappers)) + 1 && c.wrappers[old(len(c.wrappers))] == value && c.key == old(c.key) && c.work == old(c.work) && c.wait == old(c.wait) && c.start == old(c.start)
 
 //@ func ExclusiveRateLimit
-//@   props C09
+//@   props C09 C10
 //@   panics nilctx : ctx == nil
 //@   panics baddur : minDuration <= 0
 //@   nopanic valid : ctx != nil && minDuration > 0
 //@   ensures option : ret != nil
 
 //@ func ExclusiveRateLimit$1
-//@   props C09
+//@   props C09 C10
 //@   modular
 //@   panics nilwork : value == nil
 //@   nopanic valid : value != nil
@@ -1035,7 +1035,7 @@ package bigbuff
 //@   ensures forwarded : icalls("(*Exclusive).call") == 1 && ret == ilast("(*Exclusive).call", 0)
 
 //@ func (*Exclusive).CallAfter
-//@   props C10
+//@   props C10 C09
 //@   requires recv : e != nil
 //@   maypanic
 //@   # the blocking form returns exactly the outcome received from the async form's channel
@@ -1053,20 +1053,20 @@ package bigbuff
 //@   ensures forwarded : icalls("(*Exclusive).CallWithOptions") == 1 && ret == ilast("(*Exclusive).CallWithOptions", 0)
 
 //@ func (*Exclusive).Call
-//@   props C10
+//@   props C10 C09
 //@   requires recv : e != nil
 //@   maypanic
 //@   at-call (*Exclusive).CallAfter#0 forward : arg1 == key && arg2 == value && arg3 == 0
 //@   ensures outcome : ret0 == ilast("(*Exclusive).CallAfter", 0) && ret1 == ilast("(*Exclusive).CallAfter", 1)
 
 //@ func (*Exclusive).CallAsync
-//@   props C10
+//@   props C10 C09
 //@   maypanic
 //@   at-call (*Exclusive).CallAfterAsync#0 forward : arg1 == key && arg2 == value && arg3 == 0
 //@   ensures outcome : ret == ilast("(*Exclusive).CallAfterAsync", 0)
 
 //@ func (*Exclusive).Start
-//@   props C10
+//@   props C10 C09
 //@   maypanic
 //@   at-call (*Exclusive).StartAfter#0 forward : arg1 == key && arg2 == value && arg3 == 0
 //@   ensures once : icalls("(*Exclusive).StartAfter") == 1
@@ -1095,7 +1095,7 @@ package bigbuff
 //@   ensures once : icalls("(*ChanPubSub).Add") == 1
 
 //@ func (*ChanPubSub).C
-//@   props C06
+//@   props C06 C07
 //@   requires recv : x != nil
 //@   maypanic
 //@   ensures chan : ret == x.ping.C
@@ -1136,7 +1136,7 @@ package bigbuff
 //@   ensures once : icalls("(*Notifier).Unsubscribe") == 1
 
 //@ func (*Buffer).SetCleanerConfig
-//@   props C04 C03 C11
+//@   props C04 C03 C11 C01 C02 C05 C12
 //@   maypanic
 //@   # the monitor invariant `cleaner` (non-nil Cleaner, Cooldown >= 0) is re-established at the release: an
 //@   # invalid config is rejected before it is stored
@@ -1144,11 +1144,11 @@ package bigbuff
 //@   ensures stored : config.Cleaner != nil && config.Cooldown >= 0 ==> ret == nil && b.cleaner != nil && b.cleaner.Cleaner == config.Cleaner && b.cleaner.Cooldown == config.Cooldown
 
 //@ func (*Buffer).CleanerConfig
-//@   props C04 C11
+//@   props C04 C11 C01 C02 C03 C05 C12
 //@   maypanic
 
 //@ func (*Buffer).Done
-//@   props C12 C11
+//@   props C12 C11 C01 C02 C03 C04 C05
 //@   maypanic
 //@   ensures chan : ret == b.done
 //@   # also on the zero Buffer: the channel exists from the first call on
@@ -1161,7 +1161,7 @@ package bigbuff
 //@   maypanic
 
 //@ func (*consumer).Done
-//@   props C12
+//@   props C12 C01 C02 C03 C05
 //@   requires recv : c != nil
 //@   maypanic
 
@@ -1205,18 +1205,18 @@ package bigbuff
 //@   ensures direction : rt_chandir(rv_type(ret)) == 2 || rt_chandir(rv_type(ret)) == 3
 
 //@ func NewChanCaster
-//@   props C08
+//@   props C08 C06 C07
 //@   ensures fresh : ret != nil && ret.C == channel
 
 //@ func MinDuration
-//@   props C09
+//@   props C09 C01 C02 C03 C04
 //@   panics baddur : d <= 0
 //@   panics nilfn : fn == nil
 //@   nopanic valid : d > 0 && fn != nil
 //@   ensures wrapped : ret != nil && captured(ret, fn) == fn && captured(ret, d) == d
 
 //@ func MinDuration$1
-//@   props C09
+//@   props C09 C01 C02 C03 C04
 //@   modular
 //@   maypanic
 //@   requires wired : fn != nil
@@ -1496,7 +1496,7 @@ package bigbuff
 //@   ensures answered : outcome != nil ==> sent(outcome) == old(sent(outcome)) + 1 && closed(outcome)
 
 //@ func (*Exclusive).call$1$1$1
-//@   props C10
+//@   props C10 C09
 //@   modular
 //@   requires reply : outcome != nil ==> !closed(outcome)
 //@   requires wired : item != nil && item.mutex != nil && item.cond != nil
@@ -1519,7 +1519,7 @@ package bigbuff
 //@   maypanic
 
 //@ func (*ChanPubSub).markBroken
-//@   props C07
+//@   props C07 C06
 //@   requires factory : x != nil && x.broken != nil && x.pongC != nil
 //@   # afterwards the instance is (observably) broken and every waiter has been woken under the pong lock
 //@   ensures broken : closed(x.broken)
@@ -1527,7 +1527,7 @@ package bigbuff
 
 //@ func (*ChanPubSub).sanityCheckSubscribersDelta
 //@   maypanic
-//@   props C07
+//@   props C07 C06
 //@   requires factory : x != nil && x.broken != nil && x.pongC != nil
 //@   # no false invariant panic: a count that moved by delta inside [0, MaxInt32] is accepted
 //@   nopanic valid : subscribers >= 0 && subscribers <= 2147483647 && delta >= -2147483647 && delta <= 2147483647 && subscribers - delta >= 0 && subscribers - delta <= 2147483647
